@@ -53,7 +53,7 @@ for d in sorted(glob.glob('/tmp/seeded-in/*') + glob.glob('/tmp/seeded-in-r2/*')
         caught = sorted(k for k, x in det.items() if x['exit'] == 1)
         meta = {
             'name': name,
-            'breaks_property': (pid[2:] if pid[0] == 'R' else pid) if not pid.startswith('F') else {'F1': 'C10', 'F2': 'C10', 'F3': 'C11'}[pid],
+            'breaks_property': (pid[2:] if pid[0] == 'R' else pid) if not pid.startswith('F') else {'F1': 'C10', 'F2': 'C10', 'F3': 'C11', 'F4': 'C04'}[pid],
             'origin': ('independent sub-agent given only the property text and a scratch worktree' + (' (round %s)' % pid[1] if pid[0] == 'R' else '')) if not pid.startswith('F') else 'reverse of the fix: commit in /repo (re-introduces the genuine defect)',
             'what_and_what_it_needs': first_para(notes, v) if notes else 'see DESIGN.md section 4',
             'confirmed_independently': confirm.get(name, {}),
